@@ -51,11 +51,67 @@ STATIC_PROGS = [
     "x = [1, 'a']\ny = x[0] + x[1]\nz = {1: 'a'}[2] + 1\nw = (1, 'a')[1] + 1\nv = len(1)\nu = 'a'.join(1)\nt = [i.nope for i in 'abc'.split()]\n",
     "R = record(a = int)\nr = R(a = 'x')\nr2 = R(b = 1)\nq = r.zz\nE = enum('a', 'b')\ne = E('c')\ndef f() -> R:\n    return 1\n",
 ]
-LIB = [["lib.star", "export = 1\nexample = 2\n_private = 3\n"]]
+LIB = [["lib.star", "export = 1\nexample = 2\n_private = 3\n" + "".join(f"value_{c} = {i}\n" for i, c in enumerate("abcdefgh"))]]
+
+
+def tie_programs():
+    """A misspelt name with k candidates at the SAME edit distance, for every kind of lookup that offers a suggestion: which
+    one is suggested (and the whole error text) must not depend on hash order."""
+    out = []
+    for k in (2, 3, 8):
+        names = [f"value_{c}" for c in "abcdefgh"[:k]]
+        kw = ", ".join(f"{n} = {i}" for i, n in enumerate(names))
+        asg = "".join(f"{n} = {i}\n" for i, n in enumerate(names))
+        asg_in = "".join(f"    {n} = {i}\n" for i, n in enumerate(names))
+        out += [
+            asg + "emit(value_x)\n",
+            "def f():\n" + asg_in + "    return value_x\nf()\n",
+            f"def f({kw}):\n    return value_x\nf()\n",
+            asg[:len(asg) // 2] + "def f():\n" + asg_in[len(asg_in) // 2:] + "    return value_x\nf()\n",
+            f"def f({kw}):\n    pass\nf(value_x = 1)\n",
+            f"struct({kw}).value_x\n",
+            f"T = record({', '.join(n + ' = int' for n in names)})\nT({kw}).value_x\n",
+            f"T = record({', '.join(n + ' = int' for n in names)})\nT(value_x = 1)\n",
+            f"namespace({kw}).value_x\n",
+            "{" + ", ".join(f"'{n}': 1" for n in names) + "}['value_x']\n",
+            f"T = enum({', '.join(repr(n) for n in names)})\nT('value_x')\n",
+            "def f():\n    return [value_x for q in [1]]\n" + asg + "f()\n",
+            "def f():\n" + asg_in + "    def g():\n        return value_x\n    return g()\nf()\n",
+        ]
+    out += ["load('lib.star', 'value_x')\n", "load('lib.star', 'value_a', 'value_x')\n", "''.xstrip()\n", "[].xnsert(0, 1)\n", "{}.xtems()\n", "''.isxpper()\n"]
+    return out
+
+
+def multi_diag_modules():
+    """Modules with k >= 2 static diagnostics of the same kind inside one def / at module level, and every ordered pair of kinds:
+    the list of diagnostics (order included) must not depend on hash order."""
+    kinds = {
+        "assign": lambda i: f"v{i} = {i} + 'a{i}'",
+        "call": lambda i: f"fi('s{i}')",
+        "expr": lambda i: f"{i} + 'b{i}'",
+        "attr": lambda i: f"w{i} = ''.nope{i}",
+        "annot": lambda i: f"u{i}: int = 'c{i}'",
+        "append": lambda i: f"li.append('d{i}')",
+        "index": lambda i: f"x{i} = (1, 'a')[{i} + 5]",
+    }
+    pre = "def fi(a: int) -> int:\n    return a\n"
+    out = []
+    for name, mk in kinds.items():
+        for k in (2, 3, 8):
+            body = [mk(i) for i in range(1, k + 1)]
+            out.append(pre + "def f(li: list[int]):\n" + "".join(f"    {b}\n" for b in body) + "    return 0\n")
+            out.append(pre + "li = [1]\n" + "".join(f"{b}\n" for b in body))
+    for (n1, m1), (n2, m2) in itertools.product(kinds.items(), repeat=2):
+        body = [m1(1), m2(2), m1(3), m2(4)]
+        out.append(pre + "def f(li: list[int]):\n" + "".join(f"    {b}\n" for b in body) + "    return 0\n")
+    # several defs with errors, several unused loads / reassignments (lints)
+    out.append(pre + "".join(f"def g{i}(a: int) -> str:\n    return a + {i}\n" for i in range(8)))
+    out.append("load('a.star', " + ", ".join(f"'unused{i}'" for i in range(8)) + ")\n" + "".join(f"def d{i}():\n    x{i} = 1\n    return\n    y = 2\n" for i in range(6)))
+    return out
 
 
 def programs(tier):
-    progs = [PRE + p for p in VALUE_PROGS] + [PRE + "emit(1)\n" + p for p in ERROR_PROGS]
+    progs = [PRE + p for p in VALUE_PROGS] + [PRE + "emit(1)\n" + p for p in ERROR_PROGS + tie_programs()]
     # breadth: a slice of the generated families (all of them in thorough)
     fam = [d + b for _, d, b in gen_opt.g6_types()] + [d + b for _, d, b in gen_opt.g5_globals()] + [s for _, s, _ in gen_core.f9_functions()]
     g3 = [d + b for _, d, b in gen_opt.g3_raising()]
@@ -96,7 +152,7 @@ def run(tier):
     specs = [{"id": i, "libs": LIB, "steps": [p], "opts": {"dialect": "all"}} for i, p in enumerate(progs)]
     # in-process repetition: the same list twice in one process
     run_input = "".join(json.dumps(s) + "\n" for s in specs + specs)
-    statics = STATIC_PROGS + [PRE + p for p in ERROR_PROGS[:20]]
+    statics = STATIC_PROGS + multi_diag_modules() + [PRE + p for p in ERROR_PROGS[:20] + tie_programs()]
     an = [{"id": i, "src": p, "names": ["f", "x", "y", "z", "R", "S"], "eval": False} for i, p in enumerate(statics)]
     analyze_input = "".join(json.dumps(s) + "\n" for s in an + an)
     seeds = [1, 2, 3, 4, 5, 6]
